@@ -45,7 +45,7 @@ func (fr *Frame) calleeKey(c *ssa.CallCommon) (key string, fn *ssa.Function) {
 func (fr *Frame) doCall(st *State, instr ssa.Value, c *ssa.CallCommon, pos token.Pos) []Term {
 	fc := fr.fc
 	if b, ok := c.Value.(*ssa.Builtin); ok {
-		fr.atCall(st, "builtin."+b.Name(), pos)
+		fr.atCall(st, "builtin."+b.Name(), c, pos)
 		return fr.builtin(st, b, c, pos)
 	}
 	var args []Term
@@ -61,7 +61,7 @@ func (fr *Frame) doCall(st *State, instr ssa.Value, c *ssa.CallCommon, pos token
 	key, fn := fr.calleeKey(c)
 	sig := c.Signature()
 	if key != "" {
-		fr.atCall(st, key, pos)
+		fr.atCall(st, key, c, pos)
 	}
 
 	// closure call: resolve statically if the value is a known closure
@@ -101,13 +101,12 @@ func (fr *Frame) doCall(st *State, instr ssa.Value, c *ssa.CallCommon, pos token
 
 // atCall checks the call-site preconditions ("atcall callee@n requires ...") that the
 // contract of the function under verification attaches to its n-th call of callee.
-func (fr *Frame) atCall(st *State, key string, pos token.Pos) {
+func (fr *Frame) atCall(st *State, key string, c *ssa.CallCommon, pos token.Pos) {
 	fc := fr.fc
-	fr.callCount["at:"+key]++
 	if fr.spec == nil || len(fr.spec.AtCalls) == 0 {
 		return
 	}
-	ord := fr.callCount["at:"+key]
+	ord := fr.siteOrd[c]
 	sk := shortKey(key)
 	for _, name := range []string{fmt.Sprintf("%s@%d", sk, ord), fmt.Sprintf("%s@*", sk)} {
 		cls := fr.spec.AtCalls[name]
@@ -124,9 +123,10 @@ func (fr *Frame) atCall(st *State, key string, pos token.Pos) {
 				fc.unsupp(pos, "atcall %s: %v", name, err)
 				continue
 			}
-			on := fmt.Sprintf("atcall.%s.%d", strings.Replace(name, "@*", "@all", 1), k+1)
+			site := strings.Replace(name, "@*", fmt.Sprintf("@all.site%d", ord), 1)
+			on := fmt.Sprintf("atcall.%s.%d", site, k+1)
 			if cl.Label != "" {
-				on = fmt.Sprintf("atcall.%s.%s", strings.Replace(name, "@*", "@all", 1), cl.Label)
+				on = fmt.Sprintf("atcall.%s.%s", site, cl.Label)
 			}
 			fc.addObligation(st, "typestate", fr.oblName(on), t, pos, cl.Src)
 		}
@@ -244,8 +244,14 @@ func resultNames(spec *FuncSpec, sig *types.Signature) []string {
 
 func (fr *Frame) contractCall(st *State, key string, spec *FuncSpec, fn *ssa.Function, sig *types.Signature, args []Term, argTypes []types.Type, c *ssa.CallCommon, pos token.Pos) []Term {
 	fc := fr.fc
-	fr.callCount["call:"+key]++
-	ord := fr.callCount["call:"+key]
+	ord := 0
+	if c != nil {
+		ord = fr.siteOrd[c]
+	}
+	if ord == 0 {
+		fr.callCount["call:"+key]++
+		ord = 100 + fr.callCount["call:"+key]
+	}
 	names := paramNames(fn, sig, c != nil && c.IsInvoke())
 	vars := map[string]Term{}
 	for i, n := range names {
@@ -691,6 +697,7 @@ func (fc *FnCtx) instrWrites(in ssa.Instruction, promoted map[*ssa.Alloc]bool, o
 				out[d], out[v], out["MN_"+mapID(mt)] = true, true, true
 			case "close":
 				out[fc.compChanClosed()] = true
+				out["FX_close"] = true // effect marker: this code closes a channel
 			}
 			return false
 		}
